@@ -41,6 +41,10 @@ func (f *Producer) OpenDB(name string) (kvdb.Store, error) {
 		DropFn: func() {
 			f.mu.Lock()
 			delete(f.dbs, name)
+			// the other DBs aren't in sync with the last flush anymore, as it included the dropped DB
+			for _, other := range f.dbs {
+				_ = other.modified()
+			}
 			f.mu.Unlock()
 			_ = db.Close()
 			db.Drop()
